@@ -3,10 +3,10 @@
    formula and every state reachable from a new Ackermannizer (invariant [Inv]).
    The semantic clauses (ack_complete, ack_sound) are NOT proved: they are covered by the
    correspondence with models/Ackermann.v and by the refeval search oracle of harness/c11.py. *)
-From Coq Require Import List ZArith Bool String.
-From PySMT.core Require Import Syntax SyntaxLemmas.
-From PySMT.models Require Import Oracles Cnf Ackermann.
-From PySMT.proofs Require Import Sets_proofs.
+From Coq Require Import List ZArith Bool String ClassicalDescription.
+From PySMT.core Require Import Syntax SyntaxLemmas Sem.
+From PySMT.models Require Import TypeChecker Oracles Cnf Ackermann.
+From PySMT.proofs Require Import Sets_proofs TypeChecker_proofs Coincidence Cnf_proofs SimplifierSemBase_proofs.
 Import ListNotations.
 Open Scope bool_scope.
 
@@ -177,3 +177,676 @@ Example ack_wit_result :
 Proof. vm_compute. reflexivity. Qed.
 Example ack_wit_not_flat : ack_flat ack_wit = false.
 Proof. reflexivity. Qed.
+
+(* ================================================================= semantics: ack_complete, ack_sound *)
+(* the rewriting as a pure function of the final table _terms_dict *)
+Fixpoint psub (tab : list (term * term)) (t : term) : term :=
+  match t with
+  | T o args =>
+      match o with
+      | OFunction _ _ => match assoc_t t tab with Some c => c | None => T o (map (psub tab) args) end
+      | _ => T o (map (psub tab) args)
+      end
+  end.
+Definition is_some {A} (o : option A) : bool := match o with Some _ => true | None => false end.
+(* every application under t (nested ones included) has its constant *)
+Fixpoint covered (tab : list (term * term)) (t : term) : bool :=
+  match t with
+  | T o args => forallb (covered tab) args &&
+                match o with OFunction _ _ => is_some (assoc_t t tab) | _ => true end
+  end.
+Definition cname (c : term) : string := match c with T (OSymbol n _) _ => n | _ => EmptyString end.
+Fixpoint opts_of (fn : var) (fs : list (var * list (list term))) : list (list term) :=
+  match fs with
+  | [] => []
+  | (g, opts) :: r => if var_eqb fn g then opts else opts_of fn r
+  end.
+
+Lemma covered_mono tab D : forall t, covered tab t = true ->
+  covered (tab ++ D) t = true /\ psub (tab ++ D) t = psub tab t.
+Proof.
+  induction t as [o args IH] using term_ind'. intros H. cbn [covered] in H. apply andb_true_iff in H.
+  destruct H as [Ha Ho]. rewrite forallb_forall in Ha. rewrite Forall_forall in IH.
+  assert (A1 : forallb (covered (tab ++ D)) args = true).
+  { apply forallb_forall. intros x Hx. apply IH; auto. }
+  assert (A2 : map (psub (tab ++ D)) args = map (psub tab) args).
+  { apply map_ext_in. intros x Hx. apply IH; auto. }
+  cbn [covered psub]. rewrite A1, A2. destruct o; auto.
+  destruct (assoc_t (T (OFunction n t) args) tab) as [c|] eqn:E; [|discriminate].
+  rewrite (assoc_t_app_l _ _ D _ E). auto.
+Qed.
+
+Lemma opts_of_add_same fn args fs : In args (opts_of fn (add_args fn args fs)).
+Proof.
+  induction fs as [|[g opts] r IH]; cbn.
+  - rewrite (proj2 (var_eqb_eq fn fn) eq_refl). now left.
+  - destruct (var_eqb fn g) eqn:E; cbn; rewrite E; auto.
+    apply (add_In tuple_eqb tuple_eqb_eq). now left.
+Qed.
+Lemma opts_of_add_mono fn' fn args fs o : In o (opts_of fn' fs) -> In o (opts_of fn' (add_args fn args fs)).
+Proof.
+  induction fs as [|[g opts] r IH]; cbn; [intros []|].
+  destruct (var_eqb fn g) eqn:E; cbn; destruct (var_eqb fn' g) eqn:E'; auto.
+  intros H. apply (add_In tuple_eqb tuple_eqb_eq). now right.
+Qed.
+Lemma opts_of_In fn fs o : In o (opts_of fn fs) -> exists opts, In (fn, opts) fs /\ In o opts.
+Proof.
+  induction fs as [|[g opts] r IH]; cbn; [intros []|].
+  destruct (var_eqb fn g) eqn:E.
+  - apply var_eqb_eq in E. subst. eauto.
+  - intros H. destruct (IH H) as (opts' & A & B). eauto.
+Qed.
+
+Section AckInv.
+  Variable Q : term -> Prop.                 (* a subterm-closed property of the input *)
+  Hypothesis Qsub : forall o args, Q (T o args) -> Forall Q args.
+  Variable names0 : list string.             (* the manager's symbol names at the start *)
+
+  Record Inv2 (st : astate) : Prop := {
+    i_keys : forall app c, In (app, c) (terms st) ->
+             exists n fty args nm, app = T (OFunction n fty) args /\ c = TSym nm (ret_type fty) /\
+               ~ In nm names0 /\ Q app /\ Forall (fun a => covered (terms st) a = true) args /\
+               In args (opts_of (n, fty) (funs st));
+    i_nodup : NoDup (map (fun p => cname (snd p)) (terms st));
+    i_names : forall app c, In (app, c) (terms st) -> In (cname c) (mnames (amgr st));
+    i_mono : incl names0 (mnames (amgr st));
+    i_funs : forall fn opts o, In (fn, opts) (funs st) -> In o opts ->
+             exists c, assoc_t (T (OFunction (fst fn) (snd fn)) o) (terms st) = Some c
+  }.
+
+  Definition WalkOk (t : term) : Prop := forall st, Inv2 st ->
+    Inv2 (snd (ack_walk t st)) /\ (exists D, terms (snd (ack_walk t st)) = terms st ++ D) /\
+    covered (terms (snd (ack_walk t st))) t = true /\
+    fst (ack_walk t st) = psub (terms (snd (ack_walk t st))) t.
+
+  Lemma ack_list_walk l : Forall WalkOk l -> forall st, Inv2 st ->
+    Inv2 (snd (ack_list ack_walk l st)) /\ (exists D, terms (snd (ack_list ack_walk l st)) = terms st ++ D) /\
+    forallb (covered (terms (snd (ack_list ack_walk l st)))) l = true /\
+    fst (ack_list ack_walk l st) = map (psub (terms (snd (ack_list ack_walk l st)))) l.
+  Proof.
+    induction 1 as [|x l Hx Hl IH]; intros st Hi; cbn [ack_list].
+    - split; [exact Hi|]. split; [exists []; now rewrite app_nil_r|]. split; reflexivity.
+    - destruct (IH st Hi) as (I1 & (D1 & E1) & C1 & R1). destruct (ack_list ack_walk l st) as [rs st1].
+      cbn [fst snd] in *. destruct (Hx st1 I1) as (I2 & (D2 & E2) & C2 & R2).
+      destruct (ack_walk x st1) as [x' st2]. cbn [fst snd] in *.
+      split; auto. split; [exists (D1 ++ D2); now rewrite E2, E1, app_assoc|].
+      assert (M : forall a, In a l -> covered (terms st2) a = true /\ psub (terms st2) a = psub (terms st1) a).
+      { intros a Ha. rewrite E2. apply covered_mono. rewrite forallb_forall in C1. auto. }
+      split.
+      + cbn [forallb]. rewrite C2. apply forallb_forall. intros a Ha. apply M, Ha.
+      + cbn [map]. rewrite R2, R1. f_equal. apply map_ext_in. intros a Ha. symmetry. apply M, Ha.
+  Qed.
+
+  Theorem ack_walk_spec : forall t, Q t -> WalkOk t.
+  Proof.
+    induction t as [o args IH] using term_ind'. intros Hq st Hi.
+    assert (U : ack_walk (T o args) st =
+                let (nargs, st1) := ack_list ack_walk args st in
+                match o with
+                | OFunction n fty =>
+                    match assoc_t (T o args) (terms st1) with
+                    | Some c => (c, st1)
+                    | None =>
+                        let (nm, m') := new_fresh "ack" (amgr st1) in
+                        let c := TSym nm (ret_type fty) in
+                        (c, {| amgr := m'; terms := terms st1 ++ [(T o args, c)];
+                               funs := add_args (n, fty) args (funs st1) |})
+                    end
+                | _ => (T o nargs, st1)
+                end) by reflexivity.
+    rewrite U. clear U.
+    assert (IH' : Forall WalkOk args).
+    { pose proof (Qsub _ _ Hq) as Hqa. rewrite Forall_forall in IH, Hqa |- *. auto. }
+    destruct (ack_list_walk args IH' st Hi) as (I1 & (D1 & E1) & C1 & R1).
+    destruct (ack_list ack_walk args st) as [nargs st1]. cbn [fst snd] in *.
+    assert (GEN : (forall n ty, o <> OFunction n ty) ->
+                  Inv2 st1 /\ (exists D, terms st1 = terms st ++ D) /\ covered (terms st1) (T o args) = true /\
+                  T o nargs = psub (terms st1) (T o args)).
+    { intros Hne. split; auto. split; [eauto|]. split.
+      - cbn [covered]. rewrite C1. destruct o; auto. exfalso. eapply Hne; eauto.
+      - rewrite R1. destruct o; auto. exfalso. eapply Hne; eauto. }
+    destruct o; try (cbn [fst snd]; apply GEN; intros; discriminate).
+    clear GEN. destruct (assoc_t (T (OFunction n t) args) (terms st1)) as [c|] eqn:E.
+    - cbn [fst snd]. split; auto. split; [eauto|]. split.
+      + cbn [covered]. now rewrite C1, E.
+      + cbn [psub]. now rewrite E.
+    - destruct (new_fresh "ack" (amgr st1)) as [nm m'] eqn:F. cbn [fst snd terms].
+      apply new_fresh_spec in F. destruct F as [Hfresh Hnames].
+      set (tab2 := terms st1 ++ [(T (OFunction n t) args, TSym nm (ret_type t))]).
+      assert (A2 : assoc_t (T (OFunction n t) args) tab2 = Some (TSym nm (ret_type t))) by (now apply assoc_t_app_r).
+      assert (M : forall a, covered (terms st1) a = true -> covered tab2 a = true) by (intros a Ha; now apply covered_mono).
+      split; [|split; [exists (D1 ++ [(T (OFunction n t) args, TSym nm (ret_type t))]); unfold tab2; now rewrite E1, app_assoc|split]].
+      + destruct I1 as [K1 N1 Nm1 Mo1 F1]. constructor; cbn [terms funs amgr]; fold tab2.
+        * intros app c Hin. apply in_app_or in Hin. destruct Hin as [Hin|[[= <- <-]|[]]].
+          -- destruct (K1 app c Hin) as (n0 & fty & args0 & nm0 & -> & -> & Hn0 & Hq0 & Hc0 & Ho0).
+             exists n0, fty, args0, nm0.
+             split; [reflexivity|]. split; [reflexivity|]. split; [exact Hn0|]. split; [exact Hq0|]. split.
+             ++ rewrite Forall_forall in Hc0 |- *. auto.
+             ++ now apply opts_of_add_mono.
+          -- exists n, t, args, nm.
+             split; [reflexivity|]. split; [reflexivity|]. split; [|split; [exact Hq|split]].
+             ++ intros Hn. apply Hfresh. now apply Mo1.
+             ++ apply Forall_forall. intros a Ha. apply M. rewrite forallb_forall in C1. auto.
+             ++ apply opts_of_add_same.
+        * unfold tab2. rewrite map_app. cbn. apply NoDup_snoc; auto. intros Hin. apply Hfresh.
+          apply in_map_iff in Hin. destruct Hin as ([app c] & <- & Hin). eapply Nm1; eauto.
+        * intros app c Hin. rewrite Hnames. apply in_or_app. apply in_app_or in Hin.
+          destruct Hin as [Hin|[[= <- <-]|[]]]; [left; eauto | right; now left].
+        * rewrite Hnames. apply incl_appl. exact Mo1.
+        * intros fn opts o Hin Ho. destruct (In_add_args _ _ _ _ _ _ Hin Ho) as [(opts' & A & B)|[-> ->]].
+          -- destruct (F1 fn opts' o A B) as (c & Hc). exists c. now apply assoc_t_app_l.
+          -- cbn [fst snd]. eexists. exact A2.
+      + cbn [covered]. rewrite A2. cbn. rewrite andb_true_r. apply forallb_forall. intros a Ha. apply M.
+        rewrite forallb_forall in C1. auto.
+      + cbn [psub]. now rewrite A2.
+  Qed.
+
+  (* walking again a term whose applications all have their constant changes nothing *)
+  Lemma rewalk : forall t st, covered (terms st) t = true -> ack_walk t st = (psub (terms st) t, st).
+  Proof.
+    induction t as [o args IH] using term_ind'. intros st H. cbn [covered] in H. apply andb_true_iff in H.
+    destruct H as [Ha Ho].
+    assert (L : ack_list ack_walk args st = (map (psub (terms st)) args, st)).
+    { clear Ho. induction args as [|x r IHr]; cbn [ack_list map]; auto.
+      cbn [forallb] in Ha. apply andb_true_iff in Ha. destruct Ha as [Hx Hr].
+      inversion IH as [|? ? IHx IHrest]; subst. rewrite (IHr IHrest Hr), (IHx st Hx). reflexivity. }
+    assert (U : ack_walk (T o args) st =
+                let (nargs, st1) := ack_list ack_walk args st in
+                match o with
+                | OFunction n fty =>
+                    match assoc_t (T o args) (terms st1) with
+                    | Some c => (c, st1)
+                    | None =>
+                        let (nm, m') := new_fresh "ack" (amgr st1) in
+                        let c := TSym nm (ret_type fty) in
+                        (c, {| amgr := m'; terms := terms st1 ++ [(T o args, c)];
+                               funs := add_args (n, fty) args (funs st1) |})
+                    end
+                | _ => (T o nargs, st1)
+                end) by reflexivity.
+    rewrite U, L. destruct o; auto. cbn [psub].
+    destruct (assoc_t (T (OFunction n t) args) (terms st)); [reflexivity|discriminate].
+  Qed.
+End AckInv.
+
+(* ------------------------------------------------------------------ small semantic facts *)
+Lemma tv_equals J a b : tv J (T OEquals [a; b]) = veqb (eval J a) (eval J b).
+Proof. reflexivity. Qed.
+Lemma eq_or_iff_of_eq J a b : eval J a = eval J b -> tv J (eq_or_iff a b) = true.
+Proof.
+  intros H. unfold eq_or_iff. destruct (tc a) as [[]|]; rewrite ?tv_iff, ?tv_equals; unfold tv;
+    rewrite H; auto using eqb_reflx, veqb_refl.
+Qed.
+Lemma eq_or_iff_eq J a b : tv J (eq_or_iff a b) = true ->
+  (tc a = Some TBool -> is_vbool (eval J a) /\ is_vbool (eval J b)) -> eval J a = eval J b.
+Proof.
+  unfold eq_or_iff. intros H Hb. destruct (tc a) as [[]|]; try (rewrite tv_equals in H; now apply veqb_true).
+  rewrite tv_iff in H. apply eqb_prop in H. destruct (Hb eq_refl) as [(x & Hx) (y & Hy)].
+  unfold tv in H. rewrite Hx, Hy in *. cbn in H. now subst.
+Qed.
+
+Lemma eval_node_plain I I' o args args' : plain_op o = true -> rdiv0 I = rdiv0 I' -> idiv0 I = idiv0 I' ->
+  map (eval I) args = map (eval I') args' -> eval I (T o args) = eval I' (T o args').
+Proof.
+  intros Hp A B E. rewrite !eval_plain by exact Hp. rewrite E.
+  apply (op_sem_agree (fun _ => False) (fun _ => False)). repeat split; auto; intros ? ? [].
+Qed.
+
+Fixpoint symnames (t : term) : list string :=
+  match t with
+  | T (OSymbol n _) args => n :: flat_map symnames args
+  | T _ args => flat_map symnames args
+  end.
+Lemma symnames_arg o args a : In a args -> incl (symnames a) (symnames (T o args)).
+Proof.
+  intros Ha n Hn. assert (In n (flat_map symnames args)) by (apply in_flat_map; eauto).
+  destruct o; cbn; auto.
+Qed.
+Lemma is_qf_args o args : is_qf (T o args) = true -> forallb is_qf args = true.
+Proof. destruct o; cbn; auto; discriminate. Qed.
+
+Lemma pairs_In {A} (l : list A) x y : In x l -> In y l -> x <> y -> In (x, y) (pairs l) \/ In (y, x) (pairs l).
+Proof.
+  induction l as [|z r IH]; cbn; [intros []|]. intros [->|Hx] [->|Hy] Hne.
+  - contradiction.
+  - left. apply in_or_app. left. now apply in_map.
+  - right. apply in_or_app. left. now apply in_map.
+  - destruct (IH Hx Hy Hne); [left|right]; apply in_or_app; auto.
+Qed.
+Lemma opts_of_entry fn fs o : In o (opts_of fn fs) -> In (fn, opts_of fn fs) fs.
+Proof.
+  induction fs as [|[g opts] r IH]; cbn; [intros []|].
+  destruct (var_eqb fn g) eqn:E.
+  - apply var_eqb_eq in E. subst. auto.
+  - auto.
+Qed.
+Lemma In_implications st fn opts o1 o2 : In (fn, opts) (funs st) -> In (o1, o2) (pairs opts) ->
+  In (implication st fn o1 o2) (implications st).
+Proof.
+  intros He Hp. unfold implications. apply (dedupe_In term_eqb term_eqb_eq). apply in_flat_map.
+  exists (fn, opts). split; auto. cbn [fst snd]. apply in_map_iff. exists (o1, o2). auto.
+Qed.
+Lemma map_eq_combine {A B} (g : A -> B) : forall l1 l2, map g l1 = map g l2 ->
+  forall a b, In (a, b) (combine l1 l2) -> g a = g b.
+Proof.
+  induction l1 as [|x r IH]; intros [|y r2] E a b Hin; cbn in *; try contradiction; try discriminate.
+  injection E as E1 E2. destruct Hin as [[= <- <-]|Hin]; eauto.
+Qed.
+Lemma tv_mk_and_true J l : tv J (mk_and l) = true <-> forall a, In a l -> tv J a = true.
+Proof. rewrite tv_mk_and. apply forallb_forall. Qed.
+
+(* the initial state of a new Ackermannizer satisfies the invariant *)
+Lemma Inv2_init (Q : term -> Prop) guess names : Inv2 Q names (init_astate guess names).
+Proof. constructor; cbn; try (intros; contradiction); [constructor | apply incl_refl]. Qed.
+
+Lemma run_spec (Q : term -> Prop) (Qsub : forall o args, Q (T o args) -> Forall Q args) f guess names : Q f ->
+  let r := ack_walk f (init_astate guess names) in
+  Inv2 Q names (snd r) /\ covered (terms (snd r)) f = true /\ fst r = psub (terms (snd r)) f.
+Proof.
+  intros Hq. destruct (ack_walk_spec Q Qsub names f Hq _ (Inv2_init Q guess names)) as (A & _ & B & C). auto.
+Qed.
+
+(* ================================================================= ack_sound *)
+Section Sound.
+  Variable J : interp.
+  Variable tab : list (term * term).
+
+  (* the first recorded application of (n, fty) whose (rewritten) arguments have the values vs *)
+  Fixpoint ffind (n : string) (fty : ty) (vs : list value) (l : list (term * term)) : option term :=
+    match l with
+    | [] => None
+    | (app, _) :: r =>
+        match app with
+        | T (OFunction n' fty') args =>
+            if String.eqb n n' && ty_eqb fty fty'
+            then if excluded_middle_informative (map (eval J) (map (psub tab) args) = vs)
+                 then Some app else ffind n fty vs r
+            else ffind n fty vs r
+        | _ => ffind n fty vs r
+        end
+    end.
+  (* J with the eliminated functions read off the constants; elsewhere J's own functions *)
+  Definition funI : interp :=
+    {| isym := isym J;
+       ifun := fun n fty vs =>
+                 match ffind n fty vs tab with
+                 | Some app => match assoc_t app tab with Some c => eval J c | None => ifun J n fty vs end
+                 | None => ifun J n fty vs
+                 end;
+       rdiv0 := rdiv0 J; idiv0 := idiv0 J |}.
+
+  Lemma ffind_some n fty vs : forall l app, ffind n fty vs l = Some app ->
+    (exists c, In (app, c) l) /\ exists args, app = T (OFunction n fty) args /\ map (eval J) (map (psub tab) args) = vs.
+  Proof.
+    induction l as [|[a c] r IH]; cbn; [discriminate|]. intros app H.
+    assert (G : ffind n fty vs r = Some app -> (exists c0, (a, c) = (app, c0) \/ In (app, c0) r) /\
+                exists args, app = T (OFunction n fty) args /\ map (eval J) (map (psub tab) args) = vs).
+    { intros H'. destruct (IH _ H') as ((c0 & Hc0) & Hr). split; eauto. }
+    destruct a as [o args]. destruct o; auto.
+    destruct (String.eqb n n0 && ty_eqb fty t) eqn:E; auto.
+    destruct (excluded_middle_informative (map (eval J) (map (psub tab) args) = vs)) as [Ev|]; auto.
+    injection H as <-. apply andb_true_iff in E. destruct E as [E1 E2].
+    apply String.eqb_eq in E1. apply ty_eqb_eq in E2. subst. split; eauto.
+  Qed.
+  Lemma ffind_exists n fty args c : forall l, In (T (OFunction n fty) args, c) l ->
+    exists app, ffind n fty (map (eval J) (map (psub tab) args)) l = Some app.
+  Proof.
+    induction l as [|[a c0] r IH]; cbn; [intros []|]. intros [E|Hin].
+    - injection E as -> ->. rewrite String.eqb_refl, ty_eqb_refl. cbn.
+      destruct (excluded_middle_informative _) as [|Hn]; [eauto | contradiction].
+    - destruct (IH Hin) as (app & Ha). destruct a as [o args0]. destruct o; eauto.
+      destruct (String.eqb n n0 && ty_eqb fty t); eauto.
+      destruct (excluded_middle_informative _); eauto.
+  Qed.
+
+  Variable st : astate.
+  Hypothesis Htab : tab = terms st.
+  Variable names0 : list string.
+  Hypothesis Hinv : Inv2 (fun t => is_qf t = true) names0 st.
+  Hypothesis Hwf : wfi J.
+  Hypothesis Himps : forall a, In a (implications st) -> tv J a = true.
+
+  Lemma const_is_bool c : (exists app, In (app, c) tab) -> tc c = Some TBool -> is_vbool (eval J c).
+  Proof.
+    intros (app & Hin) Ht. rewrite Htab in Hin.
+    destruct (i_keys _ _ _ Hinv app c Hin) as (n & fty & args & nm & _ & -> & _).
+    cbn in Ht. injection Ht as Ht. rewrite Ht. apply has_ty_bool. cbn [eval TSym]. apply (wf_isym J nm TBool Hwf eq_refl).
+  Qed.
+
+  Lemma sub_psub a : covered tab a = true -> sub st a = psub tab a.
+  Proof. intros H. unfold sub. rewrite Htab in *. now rewrite rewalk. Qed.
+
+  (* two recorded applications of the same function with equal argument values have constants
+     of equal value: this is what the consistency implications say *)
+  Lemma consistent n fty args1 args2 c1 c2 :
+    assoc_t (T (OFunction n fty) args1) tab = Some c1 -> assoc_t (T (OFunction n fty) args2) tab = Some c2 ->
+    map (eval J) (map (psub tab) args1) = map (eval J) (map (psub tab) args2) ->
+    eval J c1 = eval J c2.
+  Proof.
+    intros A1 A2 Ev.
+    destruct (tuple_eqb args1 args2) eqn:Et.
+    { apply tuple_eqb_eq in Et. subst. rewrite A1 in A2. now injection A2 as ->. }
+    assert (Hne : args1 <> args2) by (intros ->; rewrite (proj2 (tuple_eqb_eq args2 args2) eq_refl) in Et; discriminate).
+    pose proof (assoc_t_In _ _ _ A1) as In1. pose proof (assoc_t_In _ _ _ A2) as In2. rewrite Htab in In1, In2.
+    destruct (i_keys _ _ _ Hinv _ _ In1) as (n1 & f1 & a1 & nm1 & E1 & -> & _ & _ & Cov1 & O1).
+    destruct (i_keys _ _ _ Hinv _ _ In2) as (n2 & f2 & a2 & nm2 & E2 & -> & _ & _ & Cov2 & O2).
+    injection E1 as <- <- <-. injection E2 as <- <- <-.
+    pose proof (opts_of_entry _ _ _ O1) as He.
+    assert (IMP : forall x y cx cy, In x (opts_of (n, fty) (funs st)) -> In y (opts_of (n, fty) (funs st)) ->
+              In (x, y) (pairs (opts_of (n, fty) (funs st))) ->
+              assoc_t (T (OFunction n fty) x) tab = Some cx -> assoc_t (T (OFunction n fty) y) tab = Some cy ->
+              Forall (fun a => covered tab a = true) x -> Forall (fun a => covered tab a = true) y ->
+              map (eval J) (map (psub tab) x) = map (eval J) (map (psub tab) y) ->
+              tv J (eq_or_iff cx cy) = true).
+    { intros x y cx cy Hx Hy Hp Ax Ay Cx Cy Exy.
+      pose proof (Himps _ (In_implications st (n, fty) _ x y He Hp)) as Hi.
+      unfold implication in Hi. cbn [fst snd] in Hi. rewrite tv_implies in Hi.
+      unfold repl in Hi. cbn [is_app] in Hi. rewrite <- Htab, Ax, Ay in Hi.
+      assert (Hant : tv J (mk_and (dedupe term_eqb (map (fun p => eq_or_iff (sub st (fst p)) (sub st (snd p))) (combine x y)))) = true).
+      { apply tv_mk_and_true. intros e He'. apply (proj1 (dedupe_In term_eqb term_eqb_eq _ _)) in He'.
+        apply in_map_iff in He'. destruct He' as ([p q] & <- & Hpq). cbn [fst snd].
+        rewrite Forall_forall in Cx, Cy.
+        rewrite (sub_psub p (Cx p (in_combine_l _ _ _ _ Hpq))), (sub_psub q (Cy q (in_combine_r _ _ _ _ Hpq))).
+        apply eq_or_iff_of_eq. rewrite !map_map in Exy. exact (map_eq_combine _ _ _ Exy _ _ Hpq). }
+      rewrite Hant in Hi. exact Hi. }
+    rewrite <- Htab in Cov1, Cov2.
+    destruct (pairs_In _ _ _ O1 O2 Hne) as [Hp|Hp].
+    - pose proof (IMP _ _ _ _ O1 O2 Hp A1 A2 Cov1 Cov2 Ev) as Hc. apply (eq_or_iff_eq _ _ _ Hc).
+      intros Ht. split; apply const_is_bool; eauto using assoc_t_In.
+    - pose proof (IMP _ _ _ _ O2 O1 Hp A2 A1 Cov2 Cov1 (eq_sym Ev)) as Hc. symmetry. apply (eq_or_iff_eq _ _ _ Hc).
+      intros Ht. split; apply const_is_bool; eauto using assoc_t_In.
+  Qed.
+
+  Theorem funI_eval : forall t, covered tab t = true -> is_qf t = true -> eval funI t = eval J (psub tab t).
+  Proof.
+    induction t as [o args IH] using term_ind'. intros Hc Hq.
+    cbn [covered] in Hc. apply andb_true_iff in Hc. destruct Hc as [Ha Ho].
+    pose proof (is_qf_args _ _ Hq) as Hqa.
+    assert (Hargs : map (eval funI) args = map (eval J) (map (psub tab) args)).
+    { rewrite map_map. apply map_ext_in. intros a Hin. rewrite Forall_forall in IH.
+      rewrite forallb_forall in Ha, Hqa. auto. }
+    destruct (plain_op o) eqn:Hp.
+    - assert (E : psub tab (T o args) = T o (map (psub tab) args)) by (destruct o; try discriminate; reflexivity).
+      rewrite E. apply eval_node_plain; auto.
+    - destruct o; try discriminate.
+      + reflexivity.
+      + (* application *)
+        destruct (assoc_t (T (OFunction n t) args) tab) as [c|] eqn:A; [|discriminate].
+        cbn [psub]. rewrite A. cbn [eval]. rewrite Hargs. cbn [ifun funI].
+        pose proof (assoc_t_In _ _ _ A) as Hin.
+        destruct (ffind_exists n t args c tab Hin) as (app & Hf). rewrite Hf.
+        destruct (ffind_some _ _ _ _ _ Hf) as ((c0 & Hin0) & args' & -> & Ev).
+        rewrite Htab in Hin0.
+        destruct (i_keys _ _ _ Hinv _ _ Hin0) as (n1 & f1 & a1 & nm1 & E1 & _ & _ & _ & _ & O1).
+        injection E1 as <- <- <-.
+        destruct (opts_of_In _ _ _ O1) as (opts & He & Ho1).
+        destruct (i_funs _ _ _ Hinv _ _ _ He Ho1) as (c' & Ac'). cbn [fst snd] in Ac'. rewrite <- Htab in Ac'.
+        rewrite Ac'. exact (consistent n t args' args c' c Ac' A Ev).
+  Qed.
+End Sound.
+
+Lemma qf_sub o args : is_qf (T o args) = true -> Forall (fun t => is_qf t = true) args.
+Proof. intros H. apply Forall_forall. apply forallb_forall. exact (is_qf_args o args H). Qed.
+
+(* what holding under J says about the two shapes of the result *)
+Lemma ack_result_holds J f st0 :
+  holds J (fst (ackermannize f st0)) ->
+  holds J (fst (ack_walk f st0)) /\ forall a, In a (implications (snd (ack_walk f st0))) -> tv J a = true.
+Proof.
+  unfold ackermannize. destruct (ack_walk f st0) as [sb st']. cbn [fst snd].
+  destruct (implications st') as [|i r] eqn:E; cbn [fst].
+  - intros H. split; [exact H | intros a []].
+  - intros H. apply holds_tv in H. rewrite tv_and in H. cbn [forallb] in H.
+    apply andb_true_iff in H. destruct H as [H1 H2]. apply andb_true_iff in H2. destruct H2 as [H2 _].
+    split; [now apply holds_tv|]. now apply tv_mk_and_true.
+Qed.
+
+(* C11, soundness of Ackermannization: an interpretation J (well-sorted: [wfi], i.e. wf_interp)
+   satisfying the result yields one that satisfies the input, differing from J only in the
+   interpretation of function symbols *)
+Theorem ack_sound f guess names J : is_qf f = true -> wfi J ->
+  holds J (fst (ackermannize f (init_astate guess names))) ->
+  exists I, isym I = isym J /\ rdiv0 I = rdiv0 J /\ idiv0 I = idiv0 J /\ holds I f.
+Proof.
+  intros Hq Hwf H. destruct (ack_result_holds _ _ _ H) as [Hsb Himps].
+  destruct (run_spec (fun t => is_qf t = true) qf_sub f guess names Hq) as (Hinv & Hcov & Hres).
+  set (st' := snd (ack_walk f (init_astate guess names))) in *.
+  exists (funI J (terms st')). repeat split.
+  unfold holds. rewrite (funI_eval J (terms st') st' eq_refl names Hinv Hwf Himps f Hcov Hq).
+  rewrite <- Hres. exact Hsb.
+Qed.
+
+(* ================================================================= ack_complete *)
+Section Complete.
+  Variable I : interp.
+  Variable tab : list (term * term).
+
+  (* the application whose constant is the symbol (n, ty) *)
+  Fixpoint cfind (n : string) (ty : ty) (l : list (term * term)) : option term :=
+    match l with
+    | [] => None
+    | (app, c) :: r => if term_eqb c (TSym n ty) then Some app else cfind n ty r
+    end.
+  (* I with every fresh constant c_app := the value of app under I *)
+  Definition extI : interp :=
+    {| isym := fun n ty => match cfind n ty tab with Some app => eval I app | None => isym I n ty end;
+       ifun := ifun I; rdiv0 := rdiv0 I; idiv0 := idiv0 I |}.
+
+  Lemma cfind_In n ty : forall l app, cfind n ty l = Some app -> In (app, TSym n ty) l.
+  Proof.
+    induction l as [|[a c] r IH]; cbn; [discriminate|]. intros app.
+    destruct (term_eqb c (TSym n ty)) eqn:E; auto. apply term_eqb_eq in E. subst. intros [= ->]. auto.
+  Qed.
+  Lemma cfind_unique n ty : forall l app, NoDup (map (fun p => cname (snd p)) l) -> In (app, TSym n ty) l ->
+    cfind n ty l = Some app.
+  Proof.
+    induction l as [|[a c] r IH]; cbn; [intros ? _ []|]. intros app Hnd Hin.
+    inversion Hnd as [|? ? Hnot Hnd']; subst.
+    destruct (term_eqb c (TSym n ty)) eqn:E.
+    - apply term_eqb_eq in E. subst. destruct Hin as [[= -> ]|Hin]; auto.
+      exfalso. apply Hnot. apply in_map_iff. exists (app, TSym n ty). auto.
+    - destruct Hin as [[= -> ->]|Hin]; auto.
+      rewrite (proj2 (term_eqb_eq _ _) eq_refl) in E. discriminate.
+  Qed.
+
+  Variable st : astate.
+  Hypothesis Htab : tab = terms st.
+  Variable names0 : list string.
+  Definition Qc (t : term) : Prop :=
+    is_qf t = true /\ okt t = true /\ (exists ty, tc t = Some ty) /\ incl (symnames t) names0.
+  Hypothesis Hinv : Inv2 Qc names0 st.
+  Hypothesis Hwf : wfi I.
+
+  Lemma Qc_sub o args : Qc (T o args) -> Forall Qc args.
+  Proof.
+    intros (Hq & Hok & (ty & Ht) & Hs). apply Forall_forall. intros a Ha. split; [|split; [|split]].
+    - pose proof (is_qf_args _ _ Hq) as H. rewrite forallb_forall in H. auto.
+    - pose proof (okt_args _ _ Hok) as H. rewrite Forall_forall in H. auto.
+    - destruct (tc_inv _ _ _ Ht) as (tys & Htys & _). apply tcs_Forall2 in Htys.
+      destruct (Forall2_In_l _ _ _ _ Htys Ha) as (t0 & _ & H0). eauto.
+    - intros n Hn. apply Hs. eapply symnames_arg; eauto.
+  Qed.
+
+  Lemma fresh_not_sym n ty app : cfind n ty tab = Some app -> ~ In n names0.
+  Proof.
+    intros H. apply cfind_In in H. rewrite Htab in H.
+    destruct (i_keys _ _ _ Hinv _ _ H) as (n1 & f1 & a1 & nm & _ & E & Hn & _). injection E as <- _. exact Hn.
+  Qed.
+
+  Theorem extI_eval : forall t, covered tab t = true -> is_qf t = true -> incl (symnames t) names0 ->
+    eval extI (psub tab t) = eval I t.
+  Proof.
+    induction t as [o args IH] using term_ind'. intros Hc Hq Hs.
+    cbn [covered] in Hc. apply andb_true_iff in Hc. destruct Hc as [Ha Ho].
+    pose proof (is_qf_args _ _ Hq) as Hqa.
+    assert (Hargs : map (eval extI) (map (psub tab) args) = map (eval I) args).
+    { rewrite map_map. apply map_ext_in. intros a Hin. rewrite Forall_forall in IH.
+      rewrite forallb_forall in Ha, Hqa. apply IH; auto. intros n Hn. apply Hs. eapply symnames_arg; eauto. }
+    destruct (plain_op o) eqn:Hp.
+    - assert (E : psub tab (T o args) = T o (map (psub tab) args)) by (destruct o; try discriminate; reflexivity).
+      rewrite E. apply eval_node_plain; auto.
+    - destruct o; try discriminate.
+      + (* symbol *)
+        cbn [psub eval]. cbn [isym extI]. destruct (cfind n t tab) as [app|] eqn:E; auto.
+        exfalso. apply (fresh_not_sym _ _ _ E). apply Hs. cbn. now left.
+      + (* application *)
+        destruct (assoc_t (T (OFunction n t) args) tab) as [c|] eqn:A; [|discriminate].
+        cbn [psub]. rewrite A. pose proof (assoc_t_In _ _ _ A) as Hin. rewrite Htab in Hin.
+        destruct (i_keys _ _ _ Hinv _ _ Hin) as (n1 & f1 & a1 & nm & _ & -> & _).
+        cbn [eval TSym]. cbn [isym extI].
+        rewrite (cfind_unique nm (ret_type f1) tab (T (OFunction n t) args)); auto.
+        * rewrite Htab. apply (i_nodup _ _ _ Hinv).
+        * now rewrite Htab.
+  Qed.
+
+  Lemma tc_psub : forall t ty, tc t = Some ty -> (forall app c, In (app, c) tab -> Qc app) -> tc (psub tab t) = Some ty.
+  Proof.
+    induction t as [o args IH] using term_ind'. intros ty Ht HQ.
+    destruct (tc_inv _ _ _ Ht) as (tys & Htys & Hr).
+    assert (Hargs : tcs (map (psub tab) args) = Some tys).
+    { apply Forall2_tcs. apply tcs_Forall2 in Htys. clear - IH Htys HQ.
+      induction Htys as [|a t0 r tr Ha Hr IHr]; cbn; constructor.
+      - inversion IH; subst. auto.
+      - inversion IH; subst. auto. }
+    assert (G : tc (T o (map (psub tab) args)) = Some ty) by (rewrite tc_tcs, Hargs; exact Hr).
+    destruct o; try exact G. cbn [psub].
+    destruct (assoc_t (T (OFunction n t) args) tab) as [c|] eqn:A; [|exact G].
+    pose proof (assoc_t_In _ _ _ A) as Hin. rewrite Htab in Hin.
+    destruct (i_keys _ _ _ Hinv _ _ Hin) as (n1 & f1 & a1 & nm & E & -> & _). injection E as <- <- <-.
+    cbn. f_equal. cbn in Hr. destruct t; try discriminate. destruct (tys_eqb tys ps); [|discriminate].
+    now injection Hr as <-.
+  Qed.
+
+  Lemma sub_psub_c a : covered tab a = true -> sub st a = psub tab a.
+  Proof. intros H. unfold sub. rewrite Htab in *. now rewrite rewalk. Qed.
+
+  Lemma args_same_types (R : term -> ty -> Prop) : forall o1 o2 ps, Forall2 R o1 ps -> Forall2 R o2 ps ->
+    forall a b, In (a, b) (combine o1 o2) -> exists p, R a p /\ R b p.
+  Proof.
+    induction o1 as [|x r IH]; intros o2 ps H1 H2 a b Hin; [destruct Hin|].
+    destruct o2 as [|y r2]; [destruct Hin|]. inversion H1; subst. inversion H2; subst.
+    destruct Hin as [[= <- <-]|Hin]; eauto.
+  Qed.
+  Lemma map_eq_pointwise {A B C} (g : A -> B) (R : A -> C -> Prop) : forall l1 l2 ps, Forall2 R l1 ps -> Forall2 R l2 ps ->
+    (forall a b, In (a, b) (combine l1 l2) -> g a = g b) -> map g l1 = map g l2.
+  Proof.
+    induction l1 as [|x r IH]; intros l2 ps H1 H2 Hp; inversion H1; subst; inversion H2; subst; auto.
+    cbn. f_equal; [apply Hp; now left | eapply IH; eauto]. intros a b Hin. apply Hp. now right.
+  Qed.
+
+  (* the consistency implications hold under the witness *)
+  Lemma implication_holds fn opts o1 o2 : In (fn, opts) (funs st) -> In o1 opts -> In o2 opts ->
+    tv extI (implication st fn o1 o2) = true.
+  Proof.
+    intros He H1 H2.
+    destruct (i_funs _ _ _ Hinv _ _ _ He H1) as (c1 & A1). destruct (i_funs _ _ _ Hinv _ _ _ He H2) as (c2 & A2).
+    destruct fn as [n fty]. cbn [fst snd] in *.
+    pose proof (assoc_t_In _ _ _ A1) as In1. pose proof (assoc_t_In _ _ _ A2) as In2.
+    destruct (i_keys _ _ _ Hinv _ _ In1) as (n1 & f1 & a1 & nm1 & E1 & _ & _ & Q1 & Cov1 & _).
+    destruct (i_keys _ _ _ Hinv _ _ In2) as (n2 & f2 & a2 & nm2 & E2 & _ & _ & Q2 & Cov2 & _).
+    injection E1 as <- <- <-. injection E2 as <- <- <-.
+    rewrite <- Htab in A1, A2, Cov1, Cov2.
+    unfold implication. cbn [fst snd]. rewrite tv_implies. unfold repl. cbn [is_app]. rewrite <- Htab, A1, A2.
+    destruct (tv extI (mk_and _)) eqn:Hant; [|reflexivity]. cbn [implb].
+    apply eq_or_iff_of_eq.
+    (* value of a constant = value of its application *)
+    assert (EV : forall args c, assoc_t (T (OFunction n fty) args) tab = Some c -> Qc (T (OFunction n fty) args) ->
+                 Forall (fun a => covered tab a = true) args -> eval extI c = eval I (T (OFunction n fty) args)).
+    { intros args c A (Hq & _ & _ & Hs) Cov.
+      assert (Hc : covered tab (T (OFunction n fty) args) = true).
+      { cbn [covered]. rewrite A. cbn. rewrite andb_true_r. apply forallb_forall. now apply Forall_forall. }
+      pose proof (extI_eval _ Hc Hq Hs) as H. cbn [psub] in H. now rewrite A in H. }
+    rewrite (EV _ _ A1 Q1 Cov1), (EV _ _ A2 Q2 Cov2). cbn [eval]. f_equal.
+    (* equal argument values *)
+    pose proof (Qc_sub _ _ Q1) as Qa1. pose proof (Qc_sub _ _ Q2) as Qa2.
+    destruct Q1 as (_ & _ & (ty1 & T1) & _). destruct Q2 as (_ & _ & (ty2 & T2) & _).
+    destruct (tc_inv _ _ _ T1) as (tys1 & Ht1 & Hr1). destruct (tc_inv _ _ _ T2) as (tys2 & Ht2 & Hr2).
+    cbn in Hr1, Hr2. destruct fty as [| | | | | |ps r|]; try discriminate.
+    destruct (tys_eqb tys1 ps) eqn:P1; [|discriminate]. destruct (tys_eqb tys2 ps) eqn:P2; [|discriminate].
+    apply tys_eqb_eq in P1. apply tys_eqb_eq in P2. subst tys1 tys2.
+    apply tcs_Forall2 in Ht1. apply tcs_Forall2 in Ht2.
+    apply (map_eq_pointwise (eval I) _ o1 o2 ps Ht1 Ht2). intros a b Hab.
+    pose proof (in_combine_l _ _ _ _ Hab) as Ha. pose proof (in_combine_r _ _ _ _ Hab) as Hb.
+    rewrite Forall_forall in Qa1, Qa2, Cov1, Cov2.
+    destruct (Qa1 a Ha) as (Hqa & Hoka & _ & Hsa). destruct (Qa2 b Hb) as (Hqb & Hokb & _ & Hsb).
+    rewrite <- (extI_eval a (Cov1 a Ha) Hqa Hsa), <- (extI_eval b (Cov2 b Hb) Hqb Hsb).
+    assert (Hconj : tv extI (eq_or_iff (psub tab a) (psub tab b)) = true).
+    { rewrite tv_mk_and_true in Hant. apply Hant. apply (dedupe_In term_eqb term_eqb_eq).
+      apply in_map_iff. exists (a, b). cbn [fst snd]. split; auto.
+      now rewrite (sub_psub_c a (Cov1 a Ha)), (sub_psub_c b (Cov2 b Hb)). }
+    apply (eq_or_iff_eq _ _ _ Hconj). intros Htb.
+    destruct (args_same_types _ _ _ _ Ht1 Ht2 a b Hab) as (p & Pa & Pb).
+    assert (HQ : forall app c, In (app, c) tab -> Qc app).
+    { intros app c Hin. rewrite Htab in Hin. destruct (i_keys _ _ _ Hinv _ _ Hin) as (? & ? & ? & ? & _ & _ & _ & HQ & _). exact HQ. }
+    rewrite (tc_psub a p Pa HQ) in Htb. injection Htb as ->.
+    rewrite (extI_eval a (Cov1 a Ha) Hqa Hsa), (extI_eval b (Cov2 b Hb) Hqb Hsb).
+    split; apply okt_bool; auto.
+  Qed.
+End Complete.
+
+(* the names of the constants introduced by a run *)
+Definition ack_constants (st : astate) : list string := map (fun p => cname (snd p)) (terms st).
+
+(* C11, completeness of Ackermannization.  Typing side conditions: f is quantifier-free, in the
+   fragment [okt] of SimplifierSemBase_proofs.v (arities, inhabited sorts, canonical array
+   values) and well-typed ([tc f = Some ty]); I is well-sorted ([wfi], equivalent to
+   Sem.wf_interp); the manager knows f's symbols.  They are used for one thing only: an
+   argument of sort Bool is compared with <->, which identifies values only if they are Booleans. *)
+Theorem ack_complete f guess names I :
+  is_qf f = true -> okt f = true -> (exists ty, tc f = Some ty) -> incl (symnames f) names -> wfi I ->
+  holds I f ->
+  let r := ackermannize f (init_astate guess names) in
+  exists I', agrees_off (ack_constants (snd r)) I I' /\ holds I' (fst r) /\
+             (forall n, In n (ack_constants (snd r)) -> ~ In n names).
+Proof.
+  intros Hq Hok Hty Hs Hwf Hf.
+  assert (HQ : Qc names f) by (split; [|split; [|split]]; auto).
+  destruct (run_spec (Qc names) (Qc_sub names) f guess names HQ) as (Hinv & Hcov & Hres).
+  unfold ackermannize. destruct (ack_walk f (init_astate guess names)) as [sb st'] eqn:W. cbn [fst snd] in *.
+  assert (R : snd (match implications st' with [] => (sb, st') | t :: l => (T OAnd [mk_and (t :: l); sb], st') end) = st')
+    by (destruct (implications st'); reflexivity).
+  cbn zeta. rewrite R. exists (extI I (terms st')). split; [|split].
+  - repeat split; auto. intros n ty Hn. cbn. destruct (cfind n ty (terms st')) as [app|] eqn:E; auto.
+    exfalso. apply Hn. apply cfind_In in E. unfold ack_constants. apply in_map_iff. exists (app, TSym n ty). auto.
+  - assert (Hsb : tv (extI I (terms st')) sb = true).
+    { unfold tv. rewrite Hres, (extI_eval I (terms st') st' eq_refl names Hinv f Hcov Hq Hs). now rewrite Hf. }
+    destruct (implications st') as [|i r] eqn:E; cbn [fst]; apply holds_tv; auto.
+    rewrite tv_and. cbn [forallb]. rewrite Hsb, andb_true_r. apply tv_mk_and_true.
+    intros a Ha. rewrite <- E in Ha. unfold implications in Ha.
+    apply (proj1 (dedupe_In term_eqb term_eqb_eq _ _)) in Ha. apply in_flat_map in Ha.
+    destruct Ha as ([fn opts] & He & Hm). cbn [fst snd] in Hm. apply in_map_iff in Hm.
+    destruct Hm as ([o1 o2] & <- & Hp). cbn [fst snd]. destruct (In_pairs _ _ _ Hp) as [P1 P2].
+    exact (implication_holds I (terms st') st' eq_refl names Hinv Hwf fn opts o1 o2 He P1 P2).
+  - intros n Hn. unfold ack_constants in Hn. apply in_map_iff in Hn. destruct Hn as ([app c] & <- & Hin).
+    destruct (i_keys _ _ _ Hinv _ _ Hin) as (? & ? & ? & nm & _ & -> & Hnm & _). exact Hnm.
+Qed.
+
+(* the hypotheses are satisfiable by a formula with nested applications:
+   f(f(x) + 1) = x  under  f := fun _ => 0, x := 0 *)
+Definition I_zero : interp :=
+  {| isym := fun _ t => default_val t; ifun := fun _ t _ => match t with TFun _ r => default_val r | _ => VBool false end;
+     rdiv0 := fun r => r; idiv0 := fun z => z |}.
+Example ack_hypotheses :
+  is_qf ack_wit = true /\ okt ack_wit = true /\ tc ack_wit = Some TBool /\
+  incl (symnames ack_wit) ["x"; "f"]%string /\ holds I_zero ack_wit.
+Proof.
+  split; [reflexivity|]. split; [vm_compute; reflexivity|]. split; [vm_compute; reflexivity|]. split.
+  - intros n Hn. vm_compute in Hn. destruct Hn as [<-|[<-|[]]]; cbn; auto.
+  - unfold holds. cbn. unfold veqb. destruct (excluded_middle_informative _) as [|Hn]; [reflexivity|].
+    exfalso. apply Hn. reflexivity.
+Qed.
+Example ack_hypotheses_wf : wf_interp I_zero.
+Proof. split; cbn; intros; now apply default_val_has_ty. Qed.
+
+(* the same two theorems with Sem.wf_interp *)
+Corollary ack_complete_wf f guess names I :
+  is_qf f = true -> okt f = true -> (exists ty, tc f = Some ty) -> incl (symnames f) names -> wf_interp I ->
+  holds I f ->
+  let r := ackermannize f (init_astate guess names) in
+  exists I', agrees_off (ack_constants (snd r)) I I' /\ holds I' (fst r) /\
+             (forall n, In n (ack_constants (snd r)) -> ~ In n names).
+Proof. intros Hq Hok Hty Hs Hwf. apply ack_complete; auto. now apply wf_interp_wfi. Qed.
+Corollary ack_sound_wf f guess names J : is_qf f = true -> wf_interp J ->
+  holds J (fst (ackermannize f (init_astate guess names))) ->
+  exists I, isym I = isym J /\ rdiv0 I = rdiv0 J /\ idiv0 I = idiv0 J /\ holds I f.
+Proof. intros Hq Hwf. apply ack_sound; auto. now apply wf_interp_wfi. Qed.
